@@ -85,10 +85,13 @@ def minKey : Series → Option Int
   | (k, _) :: rest => some (rest.foldl (fun m p => if p.1 < m then p.1 else m) k)
 
 /-- `np.maximum/np.minimum(self.to_numpy(), other.to_numpy())`: **positional**, index of the
-left operand; unequal lengths are a numpy broadcast error. -/
+left operand; a right operand of length 1 is broadcast by numpy; any other length mismatch is a
+numpy broadcast error (or a pandas length error when the left operand has length 1). -/
 def zipPos (f : Rat → Rat → Rat) (a b : Series) : Except Err Series :=
   if a.length = b.length then .ok (List.zipWith (fun p q => (p.1, f p.2 q.2)) a b)
-  else .error .shape
+  else match b with
+    | [q] => .ok (a.map (fun p => (p.1, f p.2 q.2)))
+    | _ => .error .shape
 
 /-- a constant series on the index of `a` (`np.full(len(a), c)` with `a`'s index) -/
 def constLike (a : Series) (c : Rat) : Series := a.map (fun p => (p.1, c))
